@@ -74,6 +74,18 @@ fn mutate(data: &mut Vec<u8>, kind: u64, a: usize, bb: u64) {
                 data[at] = bb as u8;
             }
         }
+        5 => {
+            // the packet type in the prefix byte is rewritten
+            if !data.is_empty() {
+                data[0] = (data[0] & 0xf0) | (bb % 7) as u8;
+            }
+        }
+        6 => {
+            // the announced number of sequence bytes is rewritten
+            if !data.is_empty() {
+                data[0] = (data[0] & 0x0f) | (((bb % 10) as u8) << 4);
+            }
+        }
         _ => data.extend(std::iter::repeat(bb as u8).take(1 + a % 32)),
     }
 }
